@@ -179,7 +179,7 @@ def run(ctx) -> None:
     items: list = []
     for k in range(ctx.budget(25, 200)):
         recipe = make_recipe(ctx, k)
-        examine(ctx, recipe, items)
+        ctx.guarded(lambda: examine(ctx, recipe, items), {'recipe': recipe})
     if ctx.searching and ctx.driver is None:
         ctx.evaluated(len(items))
         return
